@@ -35,11 +35,17 @@ class Driver:
             self.errf.close()
             self.p = None
 
-    def cmd(self, line):
-        """Send one command, return the reply text, or raise Crash."""
+    def cmd(self, line, timeout=None):
+        """Send one command, return the reply text, or raise Crash / Hang."""
         try:
             self.p.stdin.write(line + "\n")
             self.p.stdin.flush()
+            if timeout is not None:
+                import select
+                ready, _, _ = select.select([self.p.stdout], [], [], timeout)
+                if not ready:
+                    self.start()
+                    raise Hang(line, timeout)
             r = self.p.stdout.readline()
         except (BrokenPipeError, OSError):
             r = ""
@@ -56,6 +62,12 @@ class Driver:
             self.errf.seek(0)
             self.errf.truncate()
         return r[2:].rstrip("\n")
+
+
+class Hang(Exception):
+    def __init__(self, command, timeout):
+        super().__init__("driver did not answer %r within %s s" % (command, timeout))
+        self.command, self.timeout = command, timeout
 
 
 class Crash(Exception):
